@@ -9,6 +9,8 @@ type PartSpec struct {
 	Instrument    bool   // build through the E1 instrumenter (controlled scheduler)
 	InstrPkgs     []string
 	Probes        []string
+	FsPoints      bool
+	ModRequires   []string
 	Race          bool
 	Shards        int
 	ProcsPerShard int
@@ -63,5 +65,19 @@ func init() {
 			"cases in which ScanPaths itself returns an error are counted as refused (the sender aborts before offering a manifest)",
 		},
 		Parts: []*PartSpec{{Name: "scan", Harness: "c13", Shards: 16}},
+	})
+}
+
+func init() {
+	register("C11", &CheckSpec{
+		Level: "model_checking",
+		Assumptions: []string{
+			"the scheduler preempts at synchronisation, channel, timer and goroutine operations only; plain-variable data races are covered by a separate free-running -race pass, not by this exploration",
+			"delay bounding: executions needing more deviations from the default schedule than the completed bound are not covered",
+			"scenario shapes: at most 3 worker threads and 2 operations per thread on one shared session",
+		},
+		Parts: []*PartSpec{{Name: "hub", Harness: "c11", Instrument: true, Shards: 16, GoMaxProcs: 1,
+			ModRequires: []string{"github.com/anishathalye/porcupine@v1.3.0"},
+			Args: "bound=2", ArgsThorough: "bound=3"}},
 	})
 }
